@@ -537,6 +537,20 @@ class Heap:
     def alive(self, r):
         return self.get('alive', Ref, B)[r]
 
+    def alive_base(self):
+        """The allocation set at the start of the current heap epoch (function entry, or the point of the
+        last havoc): everything stored in a heap map that has not been written since then was allocated
+        by then (no dangling references), hence differs from anything allocated later."""
+        b = self.maps.get('$alive_base')
+        if b is None:
+            b = z3.Const(f'{self.tag}:alive', z3.ArraySort(Ref, B))
+        return b
+
+    def is_base_map(self, key):
+        arr = self.maps.get(key)
+        return arr is None or (z3.is_const(arr) and arr.decl().kind() == z3.Z3_OP_UNINTERPRETED
+                               and arr.decl().name().startswith(self.tag + ':'))
+
     def set_alive(self, r):
         self.set('alive', z3.Store(self.get('alive', Ref, B), r, z3.BoolVal(True)))
 
